@@ -1670,7 +1670,9 @@ impl Scenario for Views {
         } else {
             let n = if rng.chance(1, 6) { rng.range(100, 230) as usize } else { rng.range(1, 60) as usize };
             let nl = rng.range(1, 5) as usize;
-            let mw = *rng.pick(&[3usize, 12, 60]);
+            // (1 in 8: payloads of up to ~9900 bytes, beyond the 8 KiB a pipe reader may assume for a page)
+            let mw = if rng.chance(1, 8) { 990 } else { *rng.pick(&[3usize, 12, 60]) };
+            let n = if mw > 100 { n.min(12) } else { n };
             let pu = if rng.chance(1, 2) { 0 } else { 60 };
             let sane = rng.chance(1, 2);
             gen_framed_words(&mut rng, n, mw, nl, pu, sane)
@@ -2557,7 +2559,9 @@ fn frame_plan(barrel: itsgen::gen::Barrel, n: usize, rng: &mut Rng) -> (Vec<itsg
     use itsgen::gen::{Barrel, FrameSpec};
     let base_lanes = legal_lane_ids(barrel, rng);
     let mut fatal_lane: Option<u8> = None; // lane id that went fatal
-    let fatal_at = if rng.chance(1, 4) { Some(rng.usize_below(n.max(1))) } else { None };
+    // (early: only the first few frames of a plan are emitted, and the frames AFTER the announcement are
+    // the ones that show whether the lane set was reduced correctly)
+    let fatal_at = if rng.chance(1, 3) { Some(rng.usize_below(n.clamp(1, 4))) } else { None };
     let mut plan = Vec::new();
     let mut kinds = Vec::new();
     for k in 0..n {
@@ -3078,7 +3082,8 @@ impl Scenario for Custom {
                 let mut cfg = GenCfg::swarm(&mut rng, true);
                 cfg.n_links = rng.range(1, 3) as usize;
                 cfg.triggers = (1, 1);
-                cfg.p_split = 0;
+                // (split frames: the TDH that continues a frame on the next page is not a new trigger)
+                cfg.p_split = *rng.pick(&[0u64, 0, 400]);
                 cfg.p_internal = *rng.pick(&[1000u64, 700]);
                 cfg.trigger_period = if rng.chance(5, 6) { Some(p_gen) } else { None };
                 cfg.period_jitter = *rng.pick(&[0u64, 0, 100, 300]);
